@@ -124,6 +124,35 @@ def _unwrap(line):
     return tag, rest
 
 
+_FLIPS = [(': true', ': false'), (':true', ':false'), ('"ok"', '"err"'), ('"t": "nodes"', '"t": "str"'), ('"t":"nodes"', '"t":"str"')]
+
+
+def corrupt_trace(path, every):
+    """Copy of an ndjson trace in which every `every`-th line (from the 2nd on) has one recorded value falsified:
+    the first boolean `true` becomes `false`, else a recorded outcome changes class, else the LAST number grows."""
+    out = path + ".corrupt"
+    n = 0
+    with open(path) as f, open(out, "w") as g:
+        for i, line in enumerate(f):
+            if i >= 1 and (i - 1) % every == 0:
+                new = None
+                for a, b in _FLIPS:
+                    if a in line:
+                        new = line.replace(a, b, 1)
+                        break
+                if new is None:
+                    m = list(re.finditer(r"(?<![\w.\"])(\d+)(?=[\],}])", line))
+                    if m:
+                        k = m[-1]
+                        new = line[:k.start()] + str(int(k.group(1)) + 1) + line[k.end():]
+                if new is not None:
+                    line = new
+                    n += 1
+            g.write(line)
+    log("selftest: falsified %d recorded events of %s" % (n, os.path.basename(path)))
+    return out
+
+
 def run_tlc(module, cfg, tag, env=None, workers=8, timeout=1800, simulate=None, depth=None,
             to_file=None, deque=False, xmx=None, keep_tags=None, extra=None):
     """Run TLC on spec/<module>.tla with spec/<cfg>. PrintT payload lines `<<"TAG", ...>>` are
@@ -138,6 +167,12 @@ def run_tlc(module, cfg, tag, env=None, workers=8, timeout=1800, simulate=None, 
     e["JAVA_TOOL_OPTIONS"] = jopts
     if env:
         e.update(env)
+    corrupted = None
+    if os.environ.get("VERIF_CORRUPT") and env and env.get("TRACE") and os.path.exists(env["TRACE"]):
+        # binding self-test (./check <ID> --selftest): what the harness recorded is falsified before the
+        # specification sees it; the check must then report violations (or refuse the trace)
+        corrupted = corrupt_trace(env["TRACE"], int(os.environ["VERIF_CORRUPT"]))
+        e["TRACE"] = corrupted
     cmd = ["timeout", str(timeout), "tlc", "-workers", str(workers), "-metadir", meta, "-cleanup",
            "-noGenerateSpecTE", "-config", cfg]
     if simulate:
@@ -175,6 +210,8 @@ def run_tlc(module, cfg, tag, env=None, workers=8, timeout=1800, simulate=None, 
         if len(tail) > 60:
             tail.pop(0)
     p.wait()
+    if corrupted:
+        os.unlink(corrupted)
     if out:
         out.close()
     res.wall = time.time() - t0
@@ -320,7 +357,7 @@ class Outcome:
             "wall_s": round(wall, 2),
             "violations": len(self.violations),
         }
-        if not self.no_evidence:
+        if not self.no_evidence and not os.environ.get("VERIF_CORRUPT"):
             with open(os.path.join(EVIDENCE, self.prop + ".json"), "w") as f:
                 json.dump(ev, f, indent=1, sort_keys=True)
         log("%s %s: %d evaluations, %d states, %d known-finding hits, %d violations, %.1fs" %
